@@ -401,6 +401,11 @@ func runTrace(rep *Report, dir, tag string, o optSet, ops []Op) *tracer {
 			if op.K == "rollback" {
 				t.emit("rollback", "ok")
 			} else if r == "ok" {
+				// an I/O call of THIS commit was made to fail: the commit must report it
+				if t.faultOp == i && t.faultKind != "" {
+					t.rep.violation("C08", "monitor", "failed-io-commit-returns-nil:"+t.faultKind, fmt.Sprintf("op %d: the %s call #%d of this commit failed (injected), yet Commit returned nil: the caller takes a transaction for durable whose %s did not succeed", i, t.faultKind, t.faultAt, t.faultKind), t.replayObj(i))
+					t.rep.violation("C01", "monitor", "acknowledged-although-sync-failed:"+t.faultKind, fmt.Sprintf("op %d: Commit returned nil although its %s call #%d failed (injected): the acknowledged transaction is not known to be on stable storage (a crash now may lose it or leave the new meta pointing at pages that were never written)", i, t.faultKind, t.faultAt), t.replayObj(i))
+				}
 				t.emit("commit", "ok")
 				t.checkWrites(i, true)
 				t.afterCommitted(i)
